@@ -1026,6 +1026,68 @@ pub fn lane_big(seed: u64) -> Vec<Scenario> {
     out
 }
 
+/// a long script on stdin while the command already writes a lot: scrut has to feed and drain
+/// at the same time (the situation the poll loop exists for)
+pub fn lane_big_stdin(seed: u64) -> Vec<Scenario> {
+    let mut out = vec![];
+    let mut g = G::new(seed ^ 0x57d1);
+    for script in [false, true] {
+        for stdin_kib in [10usize, 70, 300, 1200] {
+            for out_kib in [0usize, 70, 400] {
+                for cap in [65536usize, 4096] {
+                    let mut sim = base_sim(g.rng.next_u64());
+                    sim.swarm = swarm(&mut g);
+                    sim.swarm.stall_per_mille = 0;
+                    sim.swarm.pipe_capacity = cap;
+                    sim.swarm.chunk_max = sim.swarm.chunk_max.max(512);
+                    let mut tests = vec![];
+                    for k in 0..2 {
+                        let nonce = g.nonce();
+                        let unit = format!("{}-line\n", &nonce[..6]).into_bytes();
+                        let times = (out_kib * 1024 / unit.len()) as u64;
+                        let mut ops = vec![];
+                        if times > 0 {
+                            ops.push(Op::OutRepeat { fd: 1, unit: Bytes(unit.clone()), times: times / 2 });
+                            ops.push(Op::OutRepeat { fd: 2, unit: Bytes(unit.clone()), times: times / 2 });
+                        }
+                        ops.push(Op::Out { fd: 1, data: format!("{}-end\n", &nonce[..6]).as_str().into() });
+                        ops.push(Op::Status { code: 7 + k });
+                        sim.programs.insert(nonce.clone(), ops);
+                        // the command is the first line; the rest is text the shell reads afterwards
+                        let mut expr = format!("vsim-cmd @vs:{}@ run @ve:{}@ # then a long tail\n", nonce, nonce);
+                        let filler = ": filler filler filler filler filler filler filler filler filler filler filler\n";
+                        let want = if k == 0 { stdin_kib * 1024 } else { 2048 };
+                        while expr.len() < want {
+                            expr.push_str(filler);
+                        }
+                        expr.push_str(": tail end");
+                        tests.push(Test {
+                            title: format!("In {}", nonce),
+                            expr,
+                            nonce,
+                            expected_code: Some(7 + k),
+                            expectations: vec![],
+                            expect_match: false,
+                            cfg: TestCfg::default(),
+                        });
+                    }
+                    out.push(Scenario {
+                        lane: format!("big-stdin/{}/in{}k/out{}k/cap{}", if script { "script" } else { "proc" }, stdin_kib, out_kib, cap),
+                        tier: Tier::Lib,
+                        script_mode: script,
+                        docs: vec![doc("bigin.md", Format::Md, tests)],
+                        cli: Cli::default(),
+                        sim,
+                        pretty: false,
+                        check: vec!["C13".into(), "C14".into()],
+                    });
+                }
+            }
+        }
+    }
+    out
+}
+
 pub fn lane_early_exit(seed: u64) -> Vec<Scenario> {
     let mut out = vec![];
     let mut g = G::new(seed ^ 0xea71);
